@@ -73,6 +73,13 @@ CLAIMED = {
         "DESIGN.md section 8, C13",
         "seeded frame sequences with time steps around the switch timeout; reference learning table",
     ),
+    "C01": (
+        "exploration",
+        "Node level: 2-4 real nodes over 1-4 key pairs (explicit or password-derived), each node's trusted set any subset of the keys, random dial orientation per pair, staggered starts, optional restart, mild loss / duplication / in-flight bit flips and truncation, then a reliable phase; an adversary that sees every genuine handshake datagram reacts with field edits (stage, node-id hash, ECDH key, cipher list, payload, part and signature lengths, signature bytes), single bit flips, truncations, length corruptions and random bodies behind the marker, sent to the original destination (racing the genuine datagram), back at the sender, or from an unknown address - which reaches receivers that are fresh, awaiting pong, awaiting peng, established with and without lingering handshake. Oracles: (a) after every step every peer entry is backed by mutual trust; (b) every handshake datagram that, as the receiver parses it (stale buffer tail included), carries no valid signature of a key the receiver trusts - decided by an independent reference verifier (sim/src/refmodel.rs) - changes no state and causes no reply; (c) every dialled, mutually trusting pair ends connected.",
+        "Trusted: simulator seams, the reference verifier (own TLV walk + ring Ed25519 verify), snapshots as the definition of 'state' (peers, pending handshakes and stages, lingering stage, claim table, own addresses, reconnect entries - not the replay window or traffic counters). Steps in which housekeeping ran are excluded from the no-reply clause. The exhaustive every-bit / every-truncation sweep per stage of the quantifier is sampled, not enumerated.",
+        "DESIGN.md section 8, C01",
+        "seeded trust relations and reactive adversary; invariant + before/after snapshot per unverifiable datagram",
+    ),
     "C03": (
         "exploration",
         "Pair level (L1): an established pair of real PeerCrypto objects for each cipher. A seed-indexed sweep enumerates all schedules of length 5 (thorough: 7) over {seal next, deliver datagram 1..5 (again), tick receiver}; random histories of 20-400 steps add sender ticks, delivery/loss of rotation messages and fast-forwards across key rotations. Oracle computed from the recorded history only (no access to the window variables): a genuine datagram with counter c under key generation g is rejected iff something with counter >= c was accepted under g before the receiver's previous tick, accepted otherwise while the receiver still holds g under that key id, and opens to the sealed bytes. Both directions of error are reported (replay hole, loss of in-window traffic).",
